@@ -18,6 +18,11 @@ Import ListNotations.
 Open Scope string_scope.
 Open Scope Z_scope.
 
+(* [closed_marker] is printed after every theorem's assumptions so that the driver's parser (which
+   collects identifier lines following an "Axioms:" header) is reset by a "Closed under the global
+   context" line before the echo of the next Check. *)
+Lemma closed_marker : True. Proof. exact I. Qed.
+
 (* ------------------------------------------------------------------ to_string -> to_number *)
 Theorem C16_to_string_to_number :
   forall (display : num -> string) (str_parse : string -> option num) (x : num),
@@ -31,6 +36,7 @@ Check C16_to_string_to_number :
     ref_str_parse (display x) = Some x ->
     to_number_str str_parse (to_string_num display x) = Ok x.
 Print Assumptions C16_to_string_to_number.
+Print Assumptions closed_marker.
 
 (* the same from the Display contract used below (str::parse sees the '-' itself here) *)
 Theorem C16_to_string_to_number_contract : forall (display : num -> string) sp x,
@@ -41,6 +47,7 @@ Check C16_to_string_to_number_contract : forall (display : num -> string) sp x,
   parse_contract_signed sp -> display_contract (display x) x ->
   to_number_str sp (to_string_num display x) = Ok x.
 Print Assumptions C16_to_string_to_number_contract.
+Print Assumptions closed_marker.
 
 (* ------------------------------------------------------------------ source emission -> parser
    (expr_to_source, expr_to_source_with_scope and serializable_value_to_source share print_num):
@@ -63,6 +70,7 @@ Check C16_source_emission_reads_back :
     (nfract_is_zero x && nltb (nabs x) c1e15 = false -> display_contract (display x) x) ->
     read_source str_parse (print_num fmt_prec0 display x) = Ok x.
 Print Assumptions C16_source_emission_reads_back.
+Print Assumptions closed_marker.
 
 (* ------------------------------------------------------------------ formatter -> parser *)
 Theorem C16_formatter_reads_back :
@@ -81,6 +89,7 @@ Check C16_formatter_reads_back :
     (nfract_is_zero x && nltb (nabs x) c1e15 = false -> display_contract (display x) x) ->
     read_source str_parse (format_num fmt_prec0 display x w) = Ok x.
 Print Assumptions C16_formatter_reads_back.
+Print Assumptions closed_marker.
 
 (* the integral branch needs NO round-trip assumption on the printed digits: an integral double is
    the correctly rounded value of its own integer *)
@@ -92,14 +101,7 @@ Check C16_integral_value_is_exact : forall x,
   valid_binary 53 1024 x = true -> is_finite x = true -> nfract_is_zero x = true ->
   rn_decimal (nsign x) (int_abs x) 0 = x.
 Print Assumptions C16_integral_value_is_exact.
-
-(* the `{:.0}` contract is satisfied, for every number, by the exact-integer printer ref_prec0 (the
-   reference the correspondence compares Rust's `{:.0}` text with); so in the integral branch the only
-   library fact the round trip rests on is that str::parse reads plain integers correctly *)
-Theorem C16_prec0_contract_realised : forall x, prec0_contract (ref_prec0 x) x.
-Proof. exact ref_prec0_contract. Qed.
-Check C16_prec0_contract_realised : forall x, prec0_contract (ref_prec0 x) x.
-Print Assumptions C16_prec0_contract_realised.
+Print Assumptions closed_marker.
 
 (* a plain decimal text, with or without a leading '-', evaluates to the correctly rounded value
    of its digits with the sign applied by prefix negation *)
@@ -113,6 +115,7 @@ Check C16_plain_text_value :
     parse_contract sp -> all_digits ip = true -> ip <> "" -> all_digits fp = true ->
     read_source sp (sign_str s ++ plain ip fp) = Ok (rn_decimal s (digits_val (ip ++ fp) 0) (0 - slen fp)).
 Print Assumptions C16_plain_text_value.
+Print Assumptions closed_marker.
 
 (* ------------------------------------------------------------------ JSON out -> JSON in *)
 Theorem C16_json_reads_back :
@@ -129,6 +132,7 @@ Check C16_json_reads_back :
     ref_str_parse (json_print x) = Some x ->
     json_parse (json_out json_print x) = Ok x.
 Print Assumptions C16_json_reads_back.
+Print Assumptions closed_marker.
 
 (* with the float_roundtrip build of serde_json — as transcribed in serde_number true, the model the
    correspondence runs against the patched tree — the JSON round trip needs only the contract on the
@@ -143,6 +147,7 @@ Check C16_json_reads_back_exact_build : forall (json_print : num -> string) x,
   is_finite x = true -> json_text_contract (json_print x) x ->
   json_in true (json_out json_print x) = Ok x.
 Print Assumptions C16_json_reads_back_exact_build.
+Print Assumptions closed_marker.
 
 (* F17: the first hypothesis of C16_json_reads_back is false for the shipped build — the
    transcribed serde_json number parser without float_roundtrip reads "1e-39" one ulp high *)
@@ -162,6 +167,7 @@ Check C16_json_shipped_refuted :
   /\ json_in true (json_out ref_ryu x) = Ok x
   /\ json_in false (json_out ref_ryu x) = Ok (num_of_bits 0x37d5c72fb1552d84).
 Print Assumptions C16_json_shipped_refuted.
+Print Assumptions closed_marker.
 
 (* ------------------------------------------------------------------ literals, no library hypothesis *)
 (* 0x / 0b: underscores erased; a digit string below 2^63 denotes the nearest double of its
@@ -177,6 +183,7 @@ Check C16_hex_literal_value : forall sp body c cl v,
   radix_val 16 (String c cl) 0 = Some v ->
   literal_value sp ("0x" ++ body) = if v <? 2 ^ 63 then Some (num_of_Z v) else None.
 Print Assumptions C16_hex_literal_value.
+Print Assumptions closed_marker.
 
 Theorem C16_bin_literal_value : forall sp body c cl v,
   remove_char "_" body = String c cl -> is_bit c = true ->
@@ -188,6 +195,7 @@ Check C16_bin_literal_value : forall sp body c cl v,
   radix_val 2 (String c cl) 0 = Some v ->
   literal_value sp ("0b" ++ body) = if v <? 2 ^ 63 then Some (num_of_Z v) else None.
 Print Assumptions C16_bin_literal_value.
+Print Assumptions closed_marker.
 
 Theorem C16_radix_literal_ge_2p63_refuted :
   forall sp, literal_value sp "0xFFFFFFFFFFFFFFFF" = None
@@ -201,6 +209,7 @@ Check C16_radix_literal_ge_2p63_refuted :
           /\ parse_numexpr sp "0x8000000000000000" = PLitErr
           /\ parse_numexpr sp "0b1000000000000000000000000000000000000000000000000000000000000000" = PLitErr.
 Print Assumptions C16_radix_literal_ge_2p63_refuted.
+Print Assumptions closed_marker.
 
 (* decimal / scientific / leading-dot literals: underscores are erased, everything else goes to
    str::parse::<f64> unchanged *)
@@ -214,6 +223,7 @@ Check C16_decimal_literal_erasure : forall sp c r,
   (c = "0"%char -> match r with String c2 _ => c2 <> "b"%char /\ c2 <> "x"%char | EmptyString => True end) ->
   literal_value sp (String c r) = sp (remove_char "_" (String c r)).
 Print Assumptions C16_decimal_literal_erasure.
+Print Assumptions closed_marker.
 
 Theorem C16_decimal_literal_value : forall sp c r ip fp ex,
   is_digit c = true \/ c = "."%char ->
@@ -233,6 +243,7 @@ Check C16_decimal_literal_value : forall sp c r ip fp ex,
   literal_value sp (String c r)
   = Some (rn_decimal false (digits_val (ip ++ fp) 0) (exp_val ex - slen fp)).
 Print Assumptions C16_decimal_literal_value.
+Print Assumptions closed_marker.
 
 (* the reference is sign-symmetric (so reading "-t" as negation of "t" loses nothing) *)
 Theorem C16_rn_decimal_sign : forall s m e,
@@ -241,6 +252,17 @@ Proof. exact rn_decimal_sign. Qed.
 Check C16_rn_decimal_sign : forall s m e,
   0 <= m -> rn_decimal s m e = with_sign s (rn_decimal false m e).
 Print Assumptions C16_rn_decimal_sign.
+Print Assumptions closed_marker.
+
+(* the `{:.0}` contract is satisfied, for every number, by the exact-integer printer ref_prec0 (the
+   reference the correspondence compares Rust's `{:.0}` text with); so in the integral branch the only
+   library fact the round trip rests on is that str::parse reads plain integers correctly *)
+Theorem C16_prec0_contract_realised : forall x, prec0_contract (ref_prec0 x) x.
+Proof. exact ref_prec0_contract. Qed.
+Check C16_prec0_contract_realised : forall x, prec0_contract (ref_prec0 x) x.
+Print Assumptions C16_prec0_contract_realised.
+Print Assumptions closed_marker.
+
 
 (* ------------------------------------------------------------------ the grammar the model uses is the repo's
    coq/gen/NumGrammar.v is regenerated from blots-core/src/grammar.pest on every run; the seven
@@ -260,6 +282,7 @@ Check C16_number_grammar_is_the_models :
   /\ gen_rule_kinds = [("integer", "_"); ("binary_digits", "_"); ("hex_digits", "_"); ("binary_number", "_");
                        ("hex_number", "_"); ("decimal_number", "_"); ("number", "@")].
 Print Assumptions C16_number_grammar_is_the_models.
+Print Assumptions closed_marker.
 
 (* ------------------------------------------------------------------ the reference is IEEE RNE *)
 (* rn_decimal (the reference every text->double conversion is compared with, and the value the
@@ -282,12 +305,14 @@ Check C16_rn_decimal_correct : forall s m e,
   then SF2R radix2 z = (if s then - rne v else rne v)%R /\ is_finite_SF z = true /\ sign_SF z = s
   else z = S754_infinity s.
 Print Assumptions C16_rn_decimal_correct.
+Print Assumptions closed_marker.
 
 (* the value of a radix literal, num_of_Z v, is RNE of the integer v *)
 Theorem C16_radix_value_is_rne : forall p, is_rounding_pos (num_of_Z (Zpos p)) (IZR (Zpos p)).
 Proof. exact num_of_Z_correct. Qed.
 Check C16_radix_value_is_rne : forall p, is_rounding_pos (num_of_Z (Zpos p)) (IZR (Zpos p)).
 Print Assumptions C16_radix_value_is_rne.
+Print Assumptions closed_marker.
 
 (* ------------------------------------------------------------------ the hypotheses are satisfiable *)
 Example parse_contract_satisfiable : parse_contract ref_str_parse.
